@@ -135,9 +135,10 @@ def bounded(tier, seed):
                                      "concrete": desc, "observed": [f"{st}: {ai} [{d}]" for st, ai, d in back.timed_actions]})
                 if len(samples) < 3 and len(plan) >= 2:
                     samples.append({"problem": pr.name, "plan": desc["plan"], "back": [f"{st}: {ai} [{d}]" for st, ai, d in back.timed_actions]})
-            if len(failures) >= 5:
+            from rtc.known import stop as _stop
+            if _stop("C26", failures, 5):
                 break
-    return {"evaluations": evals, "distinct_nontrivial": len(nontrivial), "failures": failures[:5],
+    return {"evaluations": evals, "distinct_nontrivial": len(nontrivial), "failures": failures[:60],
             "rule": f"{nprob} generated temporal problems x {nplans} plans, kept when valid under the reference temporal semantics; "
                     f"non-trivial = valid plan with at least two instances", "samples": samples, "bound": f"plans <= 3 instances"}
 
